@@ -450,7 +450,11 @@ pub fn run(args: &Args, report: &mut Report) {
             } else {
                 None
             };
-            report.oracle_failure(json!({"input": input, "what": first, "all": fails, "class": class}));
+            let key = format!("oracle_class:{}", class.unwrap_or("unclassified"));
+            report.count(&key);
+            if report.distribution[&key] <= 8 {
+                report.oracle_failure(json!({"input": input, "what": first, "all": fails, "class": class}));
+            }
         }
         report.add("raw_diagnostics", r.raw.len() as u64);
         report.add("reported_diagnostics", out.len() as u64);
